@@ -267,6 +267,10 @@ func (o *Operations) Update(
 			}
 		} else {
 			hdr.PAXRecords[records.STFSRecordReplacesContent] = records.STFSRecordReplacesContentFalse
+
+			// The record has no content, but the entry keeps its size; entries that have not been written by STFS (i.e. by GNU
+			// tar) carry no record for it yet
+			hdr.PAXRecords[records.STFSRecordUncompressedSize] = strconv.Itoa(int(hdr.Size))
 			hdr.Size = 0 // Don't try to seek after the record
 
 			if o.onHeader != nil {
